@@ -50,10 +50,9 @@ def countTo (p : Nat → Bool) : Nat → Nat
   | 0 => 0
   | k+1 => countTo p k + (if p k then 1 else 0)
 
-/-- materialise a row (the driver calls this after every step so closures do not pile up) -/
-def freeze (n : Nat) (f : Nat → Rat) : Nat → Rat :=
-  let l := (List.range n).map f
-  fun i => l.getD i 0
+/-- materialise a row as a list / read a list as a row (the driver stores lists between steps so closures do not pile up) -/
+def freezeL (n : Nat) (f : Nat → Rat) : List Rat := (List.range n).map f
+def thaw (l : List Rat) : Nat → Rat := fun i => l.getD i 0
 
 /-! ## libstdc++ `uniform_int_distribution<…>(0, range-1)` over a 32-bit engine (Lemire, `_S_nd`) -/
 
@@ -195,14 +194,19 @@ structure WRow where
 
 def WRow.init (n : Nat) : WRow := ⟨fun _ => 1 / (n : Rat), fun _ => 1 / (n : Rat), 0⟩
 
+/-- running-average row after `avg = avg*c + actual; avg /= avg.sum()` -/
+def wolfAvg (n : Nat) (r : WRow) : Nat → Rat :=
+  let avg1 := fun i => r.avg i * (r.c : Rat) + r.act i
+  fun i => avg1 i / sumTo n avg1
+
+/-- the two expected values whose comparison selects the learning rate: (avgValue, actualValue) -/
+def wolfVals (n : Nat) (q : Nat → Rat) (r : WRow) : Rat × Rat := (dotTo n q (wolfAvg n r), dotTo n q r.act)
+
 /-- `best` is the action the tie-pick selected (`gSample q n words`) -/
 def wolfStep (n : Nat) (dW dL sc : Rat) (q : Nat → Rat) (best : Nat) (r : WRow) : WRow :=
-  let avg1 := fun i => r.avg i * (r.c : Rat) + r.act i
-  let s1 := sumTo n avg1
-  let avg2 := fun i => avg1 i / s1
+  let avg2 := wolfAvg n r
   let c2 := r.c + 1
-  let avgV := dotTo n q avg2
-  let actV := dotTo n q r.act
+  let (avgV, actV) := wolfVals n q r
   let d0 := if avgV < actV then dW else dL
   let d := d0 / ((c2 : Rat) / sc + 1)
   let oldV := r.act best
@@ -262,8 +266,12 @@ def srMinArm (mean : Nat → Rat) : List Nat → Nat → Rat → Nat
   | [], best, _ => best
   | a :: t, best, bv => if mean a < bv then srMinArm mean t a (mean a) else srMinArm mean t best bv
 
-/-- `eraseMin` says whether the code removes the found arm (swap-and-pop) or just pops the back -/
-def SR.step (s : SR) (nkNext : Nat) : SR :=
+/-- `*it = back(); pop_back()` : overwrite position `i` with the last element, drop the last -/
+def swapPop (l : List Nat) (i : Nat) : List Nat :=
+  let last := l.getD (l.length - 1) 0
+  (l.set i last).dropLast
+
+def SR.step (s : SR) (nkNext : Nat) (mean : Nat → Rat) : SR :=
   let pulls := s.pulls + 1
   if pulls < s.nkNew - s.nkOld then { s with pulls := pulls }
   else
@@ -272,7 +280,11 @@ def SR.step (s : SR) (nkNext : Nat) : SR :=
     else
       let phase := s.phase + 1
       if phase > s.n then { s with pulls := 0, actId := 0, phase := phase }
-      else { s with pulls := 0, actId := 0, phase := phase, nkOld := s.nkNew, nkNew := nkNext, avail := s.avail.dropLast }
+      else
+        let a0 := s.avail.getD 0 0
+        let worst := srMinArm mean (s.avail.drop 1) a0 (mean a0)
+        { s with pulls := 0, actId := 0, phase := phase, nkOld := s.nkNew, nkNew := nkNext,
+                 avail := swapPop s.avail (s.avail.idxOf worst) }
 
 def SR.current (s : SR) : Nat := s.avail.getD s.actId 0
 
@@ -291,10 +303,10 @@ structure ESRL where
   window : Nat
   values : List Rat
   allowed : List Nat
-  lri : Nat → Rat
+  lri : List Rat
 
 def ESRL.init (n : Nat) (a : Rat) (N phases window : Nat) : ESRL :=
-  ⟨n, a, false, 0, 0, N, 0, phases, 0, window, List.replicate n 0, List.range n, lrpInit n⟩
+  ⟨n, a, false, 0, 0, N, 0, phases, 0, window, List.replicate n 0, List.range n, freezeL n (lrpInit n)⟩
 
 /-- first index of the maximum (strict `>` scan) over `0..k` -/
 def argmaxFirst (p : Nat → Rat) : Nat → Nat
@@ -304,26 +316,22 @@ def argmaxFirst (p : Nat → Rat) : Nat → Nat
 /-- Eigen `maxCoeff(&idx)` on a list: first maximum -/
 def argmaxList (l : List Rat) : Nat := argmaxFirst (fun i => l.getD i 0) (l.length - 1)
 
-def swapPop (l : List Nat) (i : Nat) : List Nat :=
-  let last := l.getD (l.length - 1) 0
-  (l.set i last).dropLast
-
 def ESRL.step (s : ESRL) (act : Nat) (result : Bool) : ESRL :=
   if s.explorations < s.phases then
     match s.allowed.idxOf? act with
     | none => s
     | some k =>
       let m := s.allowed.length
-      let lri := freeze m (lrpStep m s.a 0 k result s.lri)
+      let lri := freezeL m (lrpStep m s.a 0 k result (thaw s.lri))
       let ts := s.timestep + 1
       let avg := (((s.window : Rat) - 1) * s.average + (if result then 1 else 0)) / (s.window : Rat)
       if ts ≥ s.N then
-        let conv := argmaxFirst lri (m - 1)
+        let conv := argmaxFirst (thaw lri) (m - 1)
         let ca := s.allowed.getD conv 0
         let values := s.values.set ca (maxQ (s.values.getD ca 0) avg)
         let allowed := if m > 1 then swapPop s.allowed conv else List.range s.n
         { s with explorations := s.explorations + 1, values := values, allowed := allowed,
-                 lri := lrpInit allowed.length, timestep := 0, average := 0 }
+                 lri := freezeL allowed.length (lrpInit allowed.length), timestep := 0, average := 0 }
       else { s with lri := lri, timestep := ts, average := avg }
   else if !s.exploit then { s with exploit := true, bestAction := argmaxList s.values }
   else s
@@ -332,11 +340,11 @@ def ESRL.prob (s : ESRL) (a : Nat) : Rat :=
   if s.exploit then (if a = s.bestAction then 1 else 0)
   else match s.allowed.idxOf? a with
     | none => 0
-    | some k => s.lri k
+    | some k => thaw s.lri k
 
 /-- `getPolicy`: zero vector overwritten at `allowed[i]` with `lri i`, in order of `i` -/
 def ESRL.policy (s : ESRL) : List Rat :=
   if s.exploit then (List.replicate s.n (0 : Rat)).set s.bestAction 1
-  else (List.range s.allowed.length).foldl (fun v i => v.set (s.allowed.getD i 0) (s.lri i)) (List.replicate s.n 0)
+  else (List.range s.allowed.length).foldl (fun v i => v.set (s.allowed.getD i 0) (thaw s.lri i)) (List.replicate s.n 0)
 
 end AITB.Pol
